@@ -322,7 +322,7 @@ B64Decode(s) ==
 (* the ordering is named by a mode string (recursive operators cannot take operator arguments) *)
 LessM(m, a, b) == CASE m = "int" -> a < b
                     [] m = "str" -> LessB(a, b)
-                    [] m = "key" -> (a \div 10) < (b \div 10)      \* elements are key*10+tag: the tag carries identity
+                    [] m = "key" -> (a \div 100) < (b \div 100)    \* elements are key*100+tag: the tag carries identity
 RECURSIVE InsertSorted(_, _, _)   \* insert x after every element that is not greater (stable)
 InsertSorted(l, x, m) == IF l = <<>> THEN <<x>>
                          ELSE IF LessM(m, x, l[1]) THEN <<x>> \o l
